@@ -189,6 +189,8 @@ def ref_line(line, penv=None):
         res = ref_getopt(parse_opts(t[1]), [unhx(w) for w in t[2:]])
         return "r" + "".join(f" {c}:{hx(a)}" for c, a in res) + " end"
     if op == "split":
+        if line in RENDER_EXPECT:             # a rendered argument vector: the vector itself is expected
+            return RENDER_EXPECT[line]
         ws = ref_split(unhx(t[1]))
         return f"s {len(ws)}" + "".join(" " + hx(w) for w in ws)
     if op == "run":
@@ -397,6 +399,32 @@ def random_split(rng, count):
     return ["split " + hx(bytes(rng.choice(al) for _ in range(rng.choice([3, 8, 9, 10, 12, 20, 40])))) for _ in range(count)]
 
 
+def render_word(w):
+    """universal rendering of the quoting rules: blank -> `" "`, quote -> `"\\""`, anything else as itself, empty word -> `""`"""
+    if not w:
+        return b'""'
+    return b"".join(b'" "' if c == 0x20 else b'"\\""' if c == 0x22 else bytes([c]) for c in w)
+
+
+def rendered_split(rng, count):
+    """argument vectors written as command lines (terminator style: every vector; separator style: last word non-empty);
+    the expected result is the vector itself, independent of ref_split"""
+    lines, expect = [], {}
+    al = b'ab "\\\xc3'
+    for _ in range(count):
+        ws = [bytes(rng.choice(al) for _ in range(rng.choice([0, 1, 1, 2, 3, 5]))) for _ in range(rng.choice([0, 1, 2, 3, 4]))]
+        if rng.random() < 0.5 or (ws and not ws[-1]):
+            cl = b"".join(render_word(w) + b" " for w in ws)
+        else:
+            cl = b" ".join(render_word(w) for w in ws)
+        line = "split " + hx(cl)
+        lines.append(line)
+        expect[line] = f"s {len(ws)}" + "".join(" " + hx(w) for w in ws)
+    return lines, expect
+
+
+RENDER_EXPECT = {}
+
 ENVS = ["-", "4e565f58=31", "4e565f59=74776f20776f726473,4e565f58=31", "42=-,41=3d3d,43=2078"]
 RUN_WORDS = [b"", b"a", b"a b", b'c"d', b"-x", b"\\", b"--k=v", b"'q'", b"\xc3\xa9"]
 CMD_RESTS = [b"", b"a", b"a b", b'"a b" c', b'"q\\"r" z', b'"a\\b"', b'x "" y', b'a  b', b'"unterminated x', b'a"b c"d e', b"tail\\",
@@ -577,6 +605,10 @@ def histories_for(ctx):
     es = exhaustive_split(SMAX[quick])
     es2 = [] if quick else exhaustive_split(6, [b"a", b"b", b" ", b'"', b"\\"])
     rs = random_split(rng, 4000 if quick else 60000)
+    rr, expect = rendered_split(rng, 3000 if quick else 40000)
+    RENDER_EXPECT.clear()
+    RENDER_EXPECT.update(expect)
+    rs = rs + rr
     rl, il, xl = run_lines(rng, quick), io_lines(rng, quick), exit_lines(rng, quick)
     ph = proc_histories(rng, quick)
     eh = env_histories(rng, quick)
@@ -592,7 +624,7 @@ def histories_for(ctx):
         f"p/opt=optional value ({len(ea)} vectors), each word and option name in an exactly sized heap buffer under ASan, "
         f"+ {len(ra)} random vectors of 0..8 words over random tables (0..6 options, null/empty/prefix/duplicate names, all four flag values, "
         f"negative and special characters); split: every command line of <= {SMAX[quick]} symbols over w, blank, quote, backslash "
-        f"({len(es)}){'' if quick else f' and <= 6 symbols over a, b, blank, quote, backslash ({len(es2)})'} + {len(rs)} random lines, 20 s watchdog; "
+        f"({len(es)}){'' if quick else f' and <= 6 symbols over a, b, blank, quote, backslash ({len(es2)})'} + {len(rs) - len(rr)} random lines + {len(rr)} random argument vectors (empty words, blanks, quotes, backslashes) rendered by the universal quoting (expected result: the vector itself), 20 s watchdog; "
         f"run: {len(rl)} launches of the helper child through every start/open form x redirection mask x environment (empty=inherit, 1..3 variables) "
         f"with argv/environment echoed back; io: redirection masks 0..7 x payload sizes {SIZES} ({len(il)} runs, stdin payload written and "
         f"stdout/stderr read to end-of-file, CRC-32 compared); exit: {len(xl)} exit codes through start(command)+join; Process object: every sequence of <= {3 if quick else 4} calls over {len(POPS)} calls (start, open with masks 0/1/7, join, kill, close, isRunning, read with stream selection, destructor, open with a failing vfork) + random sequences ({len(ph)} histories; pid/descriptor bookkeeping, results, EINVAL; every history ends with a count of leaked descriptors), join/destructor/close+join/kill while the child is still going to write to its redirected streams ({len(lh)} histories: all masks, the child waits, writes one line per redirected output stream, leaves a marker file and exits with a non-zero code; join must return that code whether or not the parent has read anything), join/destructor with a child that first reads its redirected stdin to the end (the parent neither closes stdin nor reads: join itself must end the input; 4 masks x sizes), children terminated by signals, a child writing without end is killed; a child blocked on its stdin is killed (4 masks); the descriptor tables of parent and child after open() read through /proc and compared with the descriptor-table model (8 masks); an executable that cannot be started (missing file, empty and blank command line) x masks 0..7: launch succeeds, exit code EXIT_FAILURE, `<program>: No such file or directory` on the redirected stderr; environment: {len(eh)} random histories of setEnvironmentVariable/getEnvironmentVariable/getEnvironmentVariables mixed with launches that inherit the environment. "
